@@ -197,6 +197,8 @@ static void execOp(int code, int slot, int64_t arg, Ent* self) {
       return;
     }
     const Op& op = s.plan[C.pos++];
+    // burst: several script operations in one driver activation, so that several sockets become ready within one poll round
+    int burst = (int)simdrv::knob(s, "burst", 1); if (self == C.driver && burst > 1 && (op.a[2] % 2) == 0) { static int depth = 0; if (depth == 0) { depth = 1; for (int b = 1; b < burst && C.pos < s.plan.size() && !C.stopped && C.driver == self && !self->removed; ++b) { execOp(0, 0, 0, self); } depth = 0; } }
     int where = (int)(op.a[3] % 4);
     bool deferrable = op.code == T_REMOVE || op.code == C_REMOVE || op.code == E_REMOVE || op.code == L_REMOVE;
     if (deferrable && where == 1) { Host h; C.pendOwn->push_back(Pending{op.code, (int)op.a[0], op.a[1]}); return; }
@@ -220,10 +222,14 @@ static void execOp(int code, int slot, int64_t arg, Ent* self) {
     else { e->byHost = true; es = C.srv->connect((arg / 3) % 4 == 0 ? String("bad.test") : String("ok.test"), port, e->ecb); }
     if (!es) { e->alive = false; e->removed = true; probe("connect_failed_immediately"); break; } e->handle = es; C.estabSlot[sl] = e; C.unresolvedEstab++; break; }
   case E_REMOVE: { Ent* e = C.estabSlot[slot % 3]; if (e) { if (!e->resolved) probe("establisher_removed_unresolved"); removeEnt(e); } break; }
-  case C_PAIR: { int sl = freeClientSlot(); if (sl < 0) break; Ent* e = newEnt(K_CLIENT, sl); if (!e) break; e->far = new Socket; Server::Client* c = C.srv->pair(e->ccb, *e->far); if (!c) { e->alive = false; e->removed = true; break; }
-    e->handle = c; e->fd = (int)c->getSocket().getFileDescriptor(); C.clientSlot[sl] = e;
-    if (arg % 3 == 0) { unsigned char b[64]; memset(b, 7, sizeof b); fcntl((int)e->far->getFileDescriptor(), F_SETFL, O_NONBLOCK); (void)!send((int)e->far->getFileDescriptor(), b, 1 + arg % 60, 0); }   // far end sends something
-    if (arg % 5 == 1) { e->far->close(); probe("pair_far_end_closed"); }
+  case C_PAIR: { int reps = (arg % 7 == 3) ? 3 : 1;   // sometimes several readable clients at once: several sockets ready in one poll round
+    for (int rep = 0; rep < reps; ++rep) {
+      int sl = freeClientSlot(); if (sl < 0) break; Ent* e = newEnt(K_CLIENT, sl); if (!e) break; e->far = new Socket; Server::Client* c = C.srv->pair(e->ccb, *e->far); if (!c) { e->alive = false; e->removed = true; break; }
+      e->handle = c; e->fd = (int)c->getSocket().getFileDescriptor(); C.clientSlot[sl] = e;
+      if (arg % 3 == 0 || reps > 1) { unsigned char b[64]; memset(b, 7, sizeof b); fcntl((int)e->far->getFileDescriptor(), F_SETFL, O_NONBLOCK); (void)!send((int)e->far->getFileDescriptor(), b, 1 + arg % 60, 0); }   // far end sends something
+      if (arg % 5 == 1 && reps == 1) { e->far->close(); probe("pair_far_end_closed"); }
+    }
+    if (reps > 1) probe("pair_burst");
     break; }
   case C_REMOVE: { Ent* e = C.clientSlot[slot % 6]; if (e) { if (simnet::queued(e->fd) > 0) probe("client_removed_with_pending_data"); removeEnt(e); } break; }
   case C_WRITE: { Ent* e = C.clientSlot[slot % 6]; if (!e) break; static byte buf[2048]; usize n = 1 + (usize)(arg % 2000); usize post = 0; if (((Server::Client*)e->handle)->write(buf, n, &post)) e->accepted += n; else e->failedIO = true; break; }
@@ -338,7 +344,7 @@ static void generate(RunSpec& s, int tier) {
   int nrem = (int)r(4), nint = (int)r(3);
   s.knobs["remotes"] = nrem; s.knobs["interrupters"] = nint; static const int caps[] = {16, 256, 4096, 65536}; s.knobs["cap"] = caps[r(4)];
   static const int pct[] = {0, 0, 10, 40}; s.knobs["epoll_fault_pct"] = pct[r(4)]; s.knobs["send_fault_pct"] = pct[r(4)]; s.knobs["conn_fault_pct"] = pct[r(4)]; s.knobs["dns_fault_pct"] = pct[r(4)]; s.knobs["eintr_pct"] = r(3) == 0 ? 5 : 0;
-  static const int synck[] = {1, 2, 3, 5}; s.knobs["sync_switch_log2"] = synck[r(4)]; static const int memk[] = {255, 8, 5, 3}; s.knobs["mem_switch_log2"] = memk[r(4)]; s.knobs["nproc"] = 1 + r(4);
+  static const int synck[] = {1, 2, 3, 5}; s.knobs["sync_switch_log2"] = synck[r(4)]; static const int memk[] = {255, 8, 5, 3}; s.knobs["mem_switch_log2"] = memk[r(4)]; s.knobs["nproc"] = 1 + r(4); s.knobs["burst"] = 1 + (r(3) == 0 ? r(4) : 0);
   int profile = (int)r(4);   // 0 mixed, 1 timer-heavy, 2 connection-heavy, 3 mixed
   int ns = 6 + (int)r(30);
   for (int i = 0; i < ns; ++i) {
